@@ -9,8 +9,9 @@ On break: harness `oracle` evaluates the property's clauses directly on the real
 """
 import os
 
-THEOREMS = ["IstioModel.C02.Theorems", "IstioModel.C02.QueueTheorems", "IstioModel.C02.QueueRefinement"]
-STREAMS = ("merge", "queue")
+THEOREMS = ["IstioModel.C02.Theorems", "IstioModel.C02.QueueTheorems", "IstioModel.C02.QueueRefinement",
+            "IstioModel.C02.DebounceTheorems"]
+STREAMS = ("merge", "queue", "debounce")
 
 
 def oracle(ctx, stream, case_lines, rep):
@@ -54,6 +55,8 @@ def oracle_all(ctx, stream):
     g = os.path.join(ctx.work, "%s.gen.ops" % stream)
     if not os.path.exists(g):
         return
+    if not ctx.streams.get(stream, {}).get("agree", True):
+        return  # the correspondence already broke on this stream and the oracle has searched it
     out = g + ".verdict"
     rc, log = ctx.harness("oracle", stream, g, out)
     if rc != 0 or not os.path.exists(out):
@@ -85,6 +88,8 @@ def run(ctx):
     ctx.trusted.append("pilot/pkg/xds/zz_verif_c02.go (verif-tagged read-only snapshot of PushQueue tables; entry points to debounce / doSendPushes)")
     ctx.diff_stream("merge", ctx.n(4000, 100000), oracle=oracle)
     ctx.diff_stream("queue", ctx.n(1500, 40000), oracle=oracle)
+    # real timers: compared up to batching only (see harness/c02/debounce.go); small on purpose
+    ctx.diff_stream("debounce", ctx.n(120, 1500), oracle=oracle)
     for stream in STREAMS:
         oracle_all(ctx, stream)
     if not proved and not ctx.violations:
